@@ -96,8 +96,21 @@ def QB.neg (w : QB) : QB := ⟨w.d, w.b, w.u, 1 - w.a⟩
 def QB.close (τ : Rat) (x y : QB) : Bool :=
   closeQ τ x.b y.b && closeQ τ x.d y.d && closeQ τ x.u y.u && closeQ τ x.a y.a
 
+/-- distance of a rejected value from the admissible set of the check named by `label` -/
+def rejDistance (label : String) (v : Rat) : Rat :=
+  if label == "sum(b)+u" || label == "sum(a)" || label == "b+d+u" then absQ (v - 1)
+  else if v < 0 then -v else if v > 1 then v - 1 else 0
+
+/-- a failure is a rounding residue when the rejected value is within 1e-9 of the admissible set -/
+def isResidue (c : Case) : Bool :=
+  match c.rej with
+  | some v => decide (rejDistance c.label v ≤ maxQ (1 / 1000000000) (64 * c.eps))
+  | none => false
+
 /-- run `k` when the implementation produced a finite value; report the class otherwise -/
 def withValue (c : Case) (name : String) (k : Array Rat → List String) : Option (List String) :=
+  -- a self-validating operator that rejects its own result by rounding residue is property C19's business
+  if (c.cls == "panic" || c.cls == "err") && isResidue c then none else
   if c.cls != "ok" then some [name ++ ".no_value(" ++ c.cls ++ ":" ++ c.label ++ ")"] else
   match allSome c.out with
   | none => some [name ++ ".non_finite"]
@@ -477,17 +490,6 @@ def oracleC20 (c : Case) : Option (List String) :=
     some (check "C20.mul_eq_iff" (c.flags == [sEq, oEq]))
   | _ => none
 
-/-- distance of a rejected value from the admissible set of the check named by `label` -/
-def rejDistance (label : String) (v : Rat) : Rat :=
-  if label == "sum(b)+u" || label == "sum(a)" || label == "b+d+u" then absQ (v - 1)
-  else if v < 0 then -v else if v > 1 then v - 1 else 0
-
-/-- a failure is a rounding residue when the rejected value is within 1e-9 of the admissible set -/
-def isResidue (c : Case) : Bool :=
-  match c.rej with
-  | some v => decide (rejDistance c.label v ≤ 1 / 1000000000)
-  | none => false
-
 /-- C01: checked constructors admit exactly the well-formed opinions -/
 def oracleC01 (c : Case) : Option (List String) :=
   let e := c.eps
@@ -706,6 +708,7 @@ def oracleC13 (c : Case) : Option (List String) :=
     -- equal-weight averaging / weighting of two dogmatic opinions: gamma must be 1/2
     if (kind == 1 || kind == 2) && x.u = 0 && y.u = 0 && xs.getD 8 0 ≠ 1 / 2 then none else
     let bothDog := decide (x.u = 0) && decide (y.u = 0)
+    if c.cls == "err" && isResidue c && !bothDog then none else
     if c.cls == "err" then
       some (check "C13.cfuse_err_only_two_dogmatic" (kind == 0 && bothDog))
     else
@@ -721,6 +724,9 @@ def oracleC13 (c : Case) : Option (List String) :=
 
 /-- C19: self-validating operators never reject a correctly rounded result.
     A failure is legitimate only when the exact result is itself ill-formed or undefined. -/
+def triWfTol (δ : Rat) (t : Rat × Rat × Rat) : Bool :=
+  decide (-δ ≤ t.1) && decide (-δ ≤ t.2.1) && decide (-δ ≤ t.2.2) && decide (absQ (t.1 + t.2.1 + t.2.2 - 1) ≤ δ)
+
 def oracleC19 (c : Case) : Option (List String) :=
   match allSome c.inp with
   | none => none
@@ -730,9 +736,9 @@ def oracleC19 (c : Case) : Option (List String) :=
   let legit : Option Bool :=  -- some true: failure legitimate; some false: must not fail; none: outside domain
     match c.op with
     | "bmul" => let x := qbAt xs 0; let y := qbAt xs 4
-      if !(x.wf 0 && y.wf 0) then none else some (decide (x.a * y.a = 1))
+      if !(x.wf e4 && y.wf e4) then none else some (decide (x.a * y.a = 1))
     | "bcomul" => let x := qbAt xs 0; let y := qbAt xs 4
-      if !(x.wf 0 && y.wf 0) then none else some (decide (x.a = 0) && decide (y.a = 0))
+      if !(x.wf e4 && y.wf e4) then none else some (decide (x.a = 0) && decide (y.a = 0))
     | "bcfuse" => let x := qbAt xs 0; let y := qbAt xs 4
       if !(x.wf e4 && y.wf e4) then none else
       if (decide (0 < x.u) && decide (x.u ≤ c.eps)) || (decide (0 < y.u) && decide (y.u ≤ c.eps)) then none
@@ -741,20 +747,20 @@ def oracleC19 (c : Case) : Option (List String) :=
       if !(x.wf e4 && y.wf e4 && decide (0 ≤ g) && decide (g ≤ 1)) then none else some false
     | "bdeduce" =>
       let x := qbAt xs 0; let c0 := triAt xs 4; let c1 := triAt xs 7; let ay := xs.getD 10 0
-      if !(x.wf 0 && triWf c0 && triWf c1) then none else
+      if !(x.wf e4 && triWfTol e4 c0 && triWfTol e4 c1) then none else
       if !(decide (0 < x.proj) && decide (x.proj < 1) && decide (0 < x.a) && decide (x.a < 1)
             && decide (0 < ay) && decide (ay < 1)) then none else some false
     | "btrans_unc" | "btrans_bsr" => let x := qbAt xs 0; let t := xs.getD 4 0
-      if !(x.wf 0) then none else some (!(decide (0 ≤ t) && decide (t ≤ 1)))
+      if !(x.wf e4) then none else some (!(decide (0 ≤ t) && decide (t ≤ 1)))
     | "btrans_opp" => let x := qbAt xs 0; let tb := xs.getD 4 0; let td := xs.getD 5 0
-      if !(x.wf 0) then none else some (!(decide (0 ≤ tb) && decide (0 ≤ td) && decide (tb + td ≤ 1)))
+      if !(x.wf e4) then none else some (!(decide (0 ≤ tb) && decide (0 ≤ td) && decide (tb + td ≤ 1)))
     | "prod2" | "prod3" =>
       if c.variant.getD 0 "" != "M" then none else
       let k := if c.op == "prod2" then 2 else 3
       let dims := (List.range k).map fun i => c.ints.getD i 0
       let offs := (List.range k).map fun i => (((List.range i).map fun j => 2 * dims.getD j 0 + 1).foldl (· + ·) 0)
       let ops := (List.range k).map fun i => opinionAt xs (offs.getD i 0) (dims.getD i 0)
-      if !(ops.all fun w => wfOpinion 0 w.1 w.2.1 w.2.2) then none else some false
+      if !(ops.all fun w => wfOpinion e4 w.1 w.2.1 w.2.2) then none else some false
     | _ => none
   match legit with
   | none => none
